@@ -160,3 +160,12 @@ impl<D: DataRef> GLWESecretToRef for GLWESecret<D> {
         }
     }
 }
+
+/// Verification hook (guard: `--cfg poulpy_verif`): read-only view of the clear secret
+/// coefficients, used by the external verification harness to recompute exact phases.
+#[cfg(poulpy_verif)]
+impl<D: DataRef> GLWESecret<D> {
+    pub fn verif_data(&self) -> &ScalarZnx<D> {
+        &self.data
+    }
+}
